@@ -69,6 +69,8 @@ impl Source {
 fn path_to_source(path: &Path) -> Result<String, Diagnostic> {
     debug!("Reading file {}", path.display());
 
+    #[cfg(feature = "verif")]
+    crate::verif::fs_point("read", path);
     let bytes = std::fs::read(path)
         .map_err(|e| diagnostic(Problem::CannotReadFile, path, e.to_string()))?;
 
